@@ -407,6 +407,7 @@ func c09Introspection(r *verdict.Run, runs int) {
 		enableLockMonitor(c)
 		c.Ctl("seed %d", r.Seed*59+int64(run))
 		c.Ctl("yield ds: 200 100")
+		c.Ctl("yield cs:checking 300 150")
 		c.Ctl("yield exec:between-commands 300 200")
 		var wg sync.WaitGroup
 		var stuck atomic.Int64
@@ -422,6 +423,11 @@ func c09Introspection(r *verdict.Run, runs int) {
 			defer cn.Close()
 			cn.Proto = 3
 			cn.Timeout = 8 * time.Second
+			if run%2 == 1 {
+				// every other run spreads the connections over four databases: introspection commands of different
+				// databases are not serialized by a data store lock and look at the same clients at the same time
+				cn.Do("SELECT", strconv.Itoa(id%4))
+			}
 			rng := shardRng(r, 7000+run*100+id)
 			for i := 0; i < 120 && stuck.Load() == 0; i++ {
 				var cmds [][]string
